@@ -12,6 +12,7 @@ def J(workload, cls, count, per_process=8, bench=False, **params):
 # Situations that make a run non-trivial for a property (any one of them suffices); a property
 # with an empty list counts every run that evaluated its oracle at least once.
 NONTRIVIAL = {
+    "C16": ["C16:concurrent_writers_and_early_waiter"],
     "C02": ["C02:multi_block_commit", "C02:round_gap_in_sequence", "C02:first_block_round_gt_1"],
     "C06": ["C06:with_crash", "C06:async_then_stable"],
     "C07": ["C07:gap_of_2plus_blocks"],
@@ -130,6 +131,13 @@ PLANS.update({
         "quick": [J("c19", "x", 32, per_process=2)] + [J("puppet", "d15", 160, per_process=8), J("puppet", "rand", 320, per_process=10)] + cluster_mix(32),
         "thorough": [J("c19", "x", 1024, per_process=8, streams=100)] + [J("puppet", "d15", 8000, per_process=20), J("puppet", "rand", 20000, per_process=20)] + cluster_mix(1000),
     },
+    "C16": {
+        "level": "exploration",
+        "rule": "many short histories (2..12 tasks x 3..8 operations on 1..3 keys, unique written values, notify_reads before / after / concurrent with the first write) against a real RocksDB-backed Store under two schedulers (4-thread runtime in real time; single thread with random yields); call and return of every operation stamped from one atomic counter at the handle boundary; per-key Wing-Gong-Lowe linearizability search against a register-with-waiters model, necessary-condition checks, lost-wake-up check at quiescence, reopen read-back; non-trivial = >= 2 tasks writing one key and a waiter registered before the first write; distinct = distinct observed read/wake value sequences",
+        "assumptions": ["a write linearizes at its enqueue (inside call..return)", "search budget 400k steps per key history, exhaustion is inconclusive"],
+        "quick": [J("c16", "mt", 16, per_process=1, histories=16), J("c16", "st", 16, per_process=1, histories=16)],
+        "thorough": [J("c16", "mt", 256, per_process=2, histories=60), J("c16", "st", 256, per_process=2, histories=60)],
+    },
     "C04": {
         "level": "exploration",
         "rule": "(1) verdict table: Block/Vote/QC/Timeout/TC::verify on by-construction valid messages and on ~55 mutation classes (every signature bit for one vote and one block per run, each signed field altered, signatures transplanted between rounds / kinds, repeated / non-member / zero-stake signers, below quorum, re-weighted committee, invalid embedded certificates) over committees of 1..10 with unequal stakes; (2) always-on at the real node in puppet runs that inject invalid variants of earlier valid messages: between the Begin and End of handling an input that is invalid by the independent checker, no state field changes and no vote / timeout / round / certificate / commit / proposal event occurs, and no valid input is rejected as invalid",
@@ -150,6 +158,7 @@ def nontrivial(pid, res, sits):
 
 # Coverage floors: (counter or situation, minimum) that the unchanged tree meets deterministically.
 FLOORS = {
+    "C16": {"quick": {"C16.histories": 400, "C16.key_histories_linearizable": 500, "C16.notify_reads_completed": 1000, "C16.waiters_registered_before_first_write": 100, "C16.reopens_checked": 400}},
     "C17": {"quick": {"C17.evaluations": 1000000, "C17.distributions_checked": 10000}},
     "C18": {"quick": {"C18.cases": 20000}},
     "C20": {"quick": {"C20.cases": 100000}},
@@ -227,6 +236,9 @@ META.update({
     "C10": M("puppet + cluster", "offline pacemaker monitor over round-advance and timeout events vs. certificates held",
              "Rounds strictly increase and chain; each entry into round r+1 is preceded by a valid QC or TC of round r delivered to or assembled by the node; each timeout's high-QC is at least the QC of any block voted and any QC sent before. Runs include jumps over many rounds, TC-only advances, certificates that arrive only inside timeouts or blocks.",
              "A certificate counts as held from the moment its frame became readable by the node (permissive)."),
+    "C16": M("component", "linearizability checking (per-key WGL search) of histories recorded at the Store handle boundary, lost-wake-up and reopen checks",
+             "Held on the recorded histories: each per-key sub-history has a linearization against the register-with-waiters model, no notify_read is left pending after a write, and reopened stores return the last value.",
+             "Histories are short and sampled; true parallelism only in the 4-thread variant; cannot run under Miri (RocksDB FFI)."),
     "C17": M("component", "arithmetic oracle over an exhaustive sub-range and sampled stake distributions",
              "Exhaustive for total stake 1..2^24 (quick) / the whole range 1..2^31-1 (thorough) with one authority, sampled for distributions over up to 50 authorities; consensus and mempool committees compared.",
              "Build has overflow checks on. The distribution space is sampled."),
